@@ -28,3 +28,19 @@ Theorem C07_single_read_refuted : exists data n sch1 sch2,
   fst (read_once (mkSrc data sch1) n) <> fst (read_once (mkSrc data sch2) n).
 Proof. exact read_once_depends_on_schedule. Qed.
 Print Assumptions C07_single_read_refuted.
+
+(* ---- stream level (Stream/ScheduleFacts.v): the reader over a source that returns data in pieces of
+   any sizes (schedule), obtaining every header field and frame with full reads, returns exactly what the
+   reader over the plain bytes returns: open + every Read, for every schedule ---- *)
+From Stef Require Import Bits Codecs Schema Wire Frame FrameFacts Reader StreamFactsBase ScheduleFacts.
+
+Theorem C07_stream_schedule_independent : forall (sc : schema) (root : N) (sizes : N -> N) (fuel rf kr k : nat) (bs : list N) (sch : list nat),
+  (length bs < rf)%nat ->
+  read_stream_sched sc root sizes fuel rf kr k {| s_data := bs; s_sched := sch |} = read_stream sc root sizes fuel kr k bs.
+Proof. exact read_stream_sched_independent. Qed.
+Print Assumptions C07_stream_schedule_independent.
+
+Theorem C07_next_frame_schedule_independent : forall (rf : nat) (bs : list N) (sch : list nat),
+  (length bs < rf)%nat -> forget_frame_src (sched_next_frame rf {| s_data := bs; s_sched := sch |}) = next_frame (SrcBytes bs).
+Proof. exact next_frame_sched. Qed.
+Print Assumptions C07_next_frame_schedule_independent.
